@@ -604,6 +604,26 @@ def main_check(modname, prop, tier, seed):
         rep.differential(modname, comp, inputs)
     if hasattr(mod, "extra"):
         mod.extra(rep, tier, random.Random(rng.getrandbits(64)))
+    if tier == "thorough" and proofs_ok:
+        # independent re-check of the property file's .vo closure and its axiom summary
+        rc, out = sh(f"timeout 3000 coqchk -silent -o -Q {COQ} Abm Abm.Props.P_{prop}", cwd=COQ,
+                     timeout=3100)
+        summ = out[out.find("CONTEXT SUMMARY"):][:3000] if "CONTEXT SUMMARY" in out else out[-1500:]
+        def _field(name):
+            m = re.search(r"\* " + name + r":\s*(.*?)\n\s*\n", summ + "\n\n", flags=re.S)
+            return " ".join(m.group(1).split()) if m else "?"
+        rep.extra_cov["coqchk"] = {"exit": rc, "axioms": _field("Axioms"),
+                                   "type_in_type": _field("Constants/Inductives relying on type-in-type"),
+                                   "unsafe_fixpoints": _field("Constants/Inductives relying on unsafe \\(co\\)fixpoints"),
+                                   "assumed_positivity": _field("Inductives whose positivity is assumed")}
+        if rc != 0 or rep.extra_cov["coqchk"]["axioms"] not in ("<none>",):
+            ax = rep.extra_cov["coqchk"]["axioms"]
+            # kernel primitives (PrimFloat/Uint63) are not axioms of ours; anything else fails closed
+            bad = rc != 0 or any(tok and not re.match(r"(Coq\.)?(Floats|Numbers\.Cyclic\.Int63)", tok)
+                                 for tok in ax.replace("<none>", "").split())
+            if bad:
+                rep.violation({"kind": "proof-obligation-fails", "theorem": "coqchk -o Abm.Props.P_" + prop,
+                               "log": summ}, no_input=True)
     if not proofs_ok:
         # the proof obligations of this property do not check: report (after the search above)
         found_input = any(not ni for _, ni in rep.violations)
